@@ -45,6 +45,8 @@ static struct {
 	char buf[4096U];
 	size_t bi;
 	int fd;
+	/* sticky, set when a flush could not write everything */
+	int err;
 } fd_aux;
 
 static ssize_t
@@ -56,6 +58,9 @@ fdflush(void)
 	     twr < tot &&
 		     (nwr = write(fd_aux.fd, fd_aux.buf + twr, tot - twr)) > 0;
 	     twr += nwr);
+	if (UNLIKELY(twr < (ssize_t)fd_aux.bi)) {
+		fd_aux.err = 1;
+	}
 	fd_aux.bi = 0U;
 	return twr;
 }
